@@ -18,7 +18,7 @@ RULE = (
     "Part 'valid': Hypothesis generates a valid schedule (1..12 strictly increasing non-zero times above a negative/zero/"
     "positive start; 12 renderings: list, ints, scalar, Python and numpy expressions, .npy/.txt/.csv files), destructive or "
     "not, a per-step write plan over photon/photon3d/charge/clusters/pixel/signal/image/scene, and a prior history of the "
-    "detector (fresh | leftovers planted in every bucket | 1..3 earlier complete runs); a clock-and-bucket probe runs first "
+    "detector (fresh | leftovers planted in every bucket | 1..3 earlier complete runs, a third of them with the very same times and mode and another start time); a clock-and-bucket probe runs first "
     "and last in every step. Part 'invalid': a valid schedule is mutated (duplicate, swap, decreasing tail, first time 0, "
     "start >= first, empty, both times and file) and fed through 7 entry points; an error must surface before any model "
     "runs. Non-trivial: n>=2 and (non-destructive or non-fresh history), or any invalid case; distinct by canonical JSON."
@@ -57,9 +57,16 @@ def valid_cases(draw):
     n = len(s["times"])
     hist_kind = draw(st.sampled_from(["fresh", "leftovers", "leftovers", "runs", "runs"]))
     hist = {"kind": hist_kind}
+    nd_main = draw(st.booleans())
     if hist_kind == "runs":
         hist["runs"] = []
         for _ in range(draw(st.integers(1, 3))):
+            if draw(st.sampled_from([False, False, True])):
+                # the earlier run used the very same times and mode and differs in its start time only (earlier, or between the two)
+                other = draw(st.sampled_from([s["start"] - 0.5, s["start"] - 3.0, (s["start"] + s["times"][0]) / 2]))
+                hs = {"start": float(other), "times": list(s["times"]), "render": "list"}
+                hist["runs"].append({"sched": hs, "non_destructive": nd_main, "plan": draw(write_plans(n)), "same_times": True})
+                continue
             hs = draw(schedules(max_n=3, renderings=("list",)))
             hist["runs"].append({"sched": hs, "non_destructive": draw(st.booleans()), "plan": draw(write_plans(len(hs["times"])))})
     entry = draw(st.sampled_from(["run_mode", "run_mode", "run_mode", "legacy"]))  # legacy = pyxel.exposure_mode (its own readout loop)
@@ -71,7 +78,7 @@ def valid_cases(draw):
                 for b in ["pixel", "signal", "image"] + draw(st.lists(st.sampled_from(["charge"]), max_size=1))}
     return {
         "sched": s,
-        "non_destructive": draw(st.booleans()),
+        "non_destructive": nd_main,
         "det_type": draw(st.sampled_from(["CCD", "CMOS", "MKID", "APD"])),
         "shape": [draw(st.integers(1, 4)), draw(st.integers(1, 4))],
         "plan": plan,
@@ -143,6 +150,8 @@ def body_valid(case, rec):
     rec.cls(f"render:{s['render']}", "nd" if nd else "destructive", f"hist:{case['history']['kind']}",
             "start<0" if start < 0 else "start=0" if start == 0 else "start>0")
     rec.nt(n >= 2 and (nd or case["history"]["kind"] != "fresh"))
+    if any(h.get("same_times") for h in case["history"].get("runs", [])):
+        rec.cls("hist:same_times_other_start")
     det_spec = simple_spec(case["det_type"], row=case["shape"][0], col=case["shape"][1])
     spec = {"detector": det_spec, "pipeline": _pipeline(case["plan"]), "mode": {"kind": "exposure"},
             "readout": render_readout_kwargs(s, rec.tmp), "non_destructive": nd}
